@@ -60,8 +60,8 @@ def space(ctx):
 def shards(ctx):
     import androguard.core.analysis.analysis  # noqa  (warm the import before the pool forks)
     C.freeze_heap()
-    s = [("full4", lo, lo + CH4) for lo in range(0, 75, CH4)]
-    s += [("m3", (0, FULL), lo, lo + CHM3) for lo in range(0, 64, CHM3)]
+    s = [("m3", (0, FULL), lo, lo + CHM3) for lo in range(0, 64, CHM3)]      # simplest first
+    s += [("full4", lo, lo + CH4) for lo in range(0, 75, CH4)]
     if ctx.thorough:
         s += [("m3", (0, 1, 2, 3, 4), lo, lo + CHT3) for lo in range(0, 5 ** 6, CHT3)]
         s += [("m4", (0, FULL), lo, lo + CHT4) for lo in range(0, 2 ** 12, CHT4)]
